@@ -275,6 +275,18 @@ class Gen:
             self.add("oct", "dec4", hx(x), 4, hx(v[:-1] + b"\x55") if n else "00")
             self.add("oct", "dec3", hx(x), 4, n)
             self.add("oct", "dec3", hx(x), 4, n + 1)
+        # fixed-length decoders with a caller buffer of capacity cap: values well beyond the capacity (the harness
+        # calls the failed decode with an exact-size canary block of that capacity)
+        for cap in (0, 1, 2, 5, 6, 13, 48, 96, 128):
+            for n in sorted({cap + 1, 2 * cap, 2 * cap + 1, 127, 128, 300, 600} | ({70000} if cap == 13 else set())):
+                if n == cap:
+                    continue
+                v = bytes([0x41]) * n
+                self.add("oct-cap", "octdec2", hx(tlv(4, v)), 4, cap)
+                self.add("oct-cap", "uintdec2", hx(tlv(2, v)), 2, cap)
+                self.add("oct-cap", "uintdec2", hx(tlv(2, b"\x00\x80" + v[2:])), 2, cap)
+                self.add("oct-cap", "bitdec2", hx(tlv(3, b"\x00" + v)), 3, 8 * cap)
+                self.add("oct-cap", "bitdec2", hx(tlv(3, b"\x07" + v[1:] + b"\x80")), 3, max(8 * cap - 7, 0))
         alphabet = b"0123456789ABCXYZabcxyz '()+,-./:=?"
         for c in range(1, 256):
             self.add("pstr", "pstrenc", 0x13, hx(bytes([0x41, c])))
